@@ -787,3 +787,25 @@ theta_v4_roundtrip!(c11_theta_v4_roundtrip_1, 1, 12);
 theta_v4_roundtrip!(c11_theta_v4_roundtrip_2, 2, 12);
 theta_v4_roundtrip!(c11_theta_v4_roundtrip_3, 3, 12);
 //@ endfamily: x
+
+//@ props: C11 C12 C17
+//@ tier: quick
+//@ timeout: 300
+//@ functions: theta::CompactThetaSketch::num_entries_bytes
+//@ bounds: every entry count 0..2^32
+//@ desc: the count field of a compressed (v4) image is written in the fewest bytes that hold the count: b = num_entries_bytes(n) satisfies n < 256^b, and b is minimal (b = 0 only for n = 0) - so the little-endian count the decoder reassembles from b bytes is n, also at n = 2^8, 2^16, 2^24
+#[kani::proof]
+fn c11_theta_num_entries_bytes_spec() {
+    let n: u32 = kani::any();
+    let b = CompactThetaSketch::num_entries_bytes(n as usize);
+    assert!(b <= 4);
+    let cap: u64 = 1u64 << (8 * b as u32);
+    assert!((n as u64) < cap, "the count does not fit the number of count bytes written");
+    if b > 0 {
+        assert!((n as u64) >= (1u64 << (8 * (b as u32 - 1))), "more count bytes than needed");
+    } else {
+        assert!(n == 0);
+    }
+    kani::cover!(n == 256 && b == 2);
+    kani::cover!(n == 65536);
+}
